@@ -8,6 +8,9 @@
 
 #define M_TASK_MAX_THREADS    16
 
+/* Three-way comparison: a difference does not fit the int returned by compare functions */
+#define M_CMP(a, b)           (((a) > (b)) - ((a) < (b)))
+
 static void src_priv_dtor(void *data);
 static void *task_thread(void *data);
 static ev_src_t *create_src(m_mod_t *mod, m_src_types type, process_cb proc,
@@ -218,21 +221,21 @@ static int fdcmp(void *my_data, void *node_data) {
     ev_src_t *src = (ev_src_t *)node_data;
     ev_src_t *my = (ev_src_t *)my_data;
 
-    return my->fd_src.fd - src->fd_src.fd;
+    return M_CMP(my->fd_src.fd, src->fd_src.fd);
 }
 
 static int tmrcmp(void *my_data, void *node_data) {
     ev_src_t *src = (ev_src_t *)node_data;
     ev_src_t *my = (ev_src_t *)my_data;
 
-    return my->tmr_src.its.ns - src->tmr_src.its.ns;
+    return M_CMP(my->tmr_src.its.ns, src->tmr_src.its.ns);
 }
 
 static int sgncmp(void *my_data, void *node_data) {
     ev_src_t *src = (ev_src_t *)node_data;
     ev_src_t *my = (ev_src_t *)my_data;
 
-    return my->sgn_src.sgs.signo - src->sgn_src.sgs.signo;
+    return M_CMP(my->sgn_src.sgs.signo, src->sgn_src.sgs.signo);
 }
 
 static int pathcmp(void *my_data, void *node_data) {
@@ -246,25 +249,23 @@ static int pidcmp(void *my_data, void *node_data) {
     ev_src_t *src = (ev_src_t *)node_data;
     ev_src_t *my = (ev_src_t *)my_data;
 
-    return my->pid_src.pid.pid - src->pid_src.pid.pid;
+    return M_CMP(my->pid_src.pid.pid, src->pid_src.pid.pid);
 }
 
 static int taskcmp(void *my_data, void *node_data) {
     ev_src_t *src = (ev_src_t *)node_data;
     ev_src_t *my = (ev_src_t *)my_data;
 
-    return my->task_src.tid.tid - src->task_src.tid.tid;
+    return M_CMP(my->task_src.tid.tid, src->task_src.tid.tid);
 }
 
 static int threshcmp(void *my_data, void *node_data) {
     ev_src_t *src = (ev_src_t *)node_data;
     ev_src_t *my = (ev_src_t *)my_data;
 
-    long double my_val = (long double)my->thresh_src.thr.activity_freq
-                         + (long double)my->thresh_src.thr.inactive_ms;
-    long double their_val = (long double)src->thresh_src.thr.activity_freq
-                            + (long double)src->thresh_src.thr.inactive_ms;
-    return my_val - their_val;
+    /* A threshold is identified by both its values */
+    const int ret = M_CMP(my->thresh_src.thr.inactive_ms, src->thresh_src.thr.inactive_ms);
+    return ret ? ret : M_CMP(my->thresh_src.thr.activity_freq, src->thresh_src.thr.activity_freq);
 }
 
 static ev_src_t *process_ps(ev_src_t *this, m_ctx_t *c, int idx, evt_priv_t *evt) {
